@@ -14,7 +14,8 @@ Contract (T = the removed instance, sel = the --flow selection, empty = all flow
   (2) no task_states / task_outputs row of T mentions a flow of R afterwards, rows (and flows) outside R are
       kept, the scheduler's own history lookup finds no history of T in R; dynamically: after the removal a
       re-run of a parent re-spawns T (new job, higher submit number) but not T's un-removed finished siblings,
-      whereas without the removal nothing downstream runs again
+      and the children that were stood down with T come back once T has run again, whereas without the
+      removal nothing downstream runs again
   (3) in every pooled child C of T that shares a removed flow, exactly the prerequisite (and suicide
       prerequisite) entries on T that are satisfied otherwise than by force (`cylc set --pre`) become
       unsatisfied; entries on other tasks and forced entries are never touched; for a child that is only in
@@ -482,7 +483,7 @@ def _preludes(gname, tier):
     if tier != 'quick':
         out.append(('setout', [('run', 1), ('setout', f'1/{SLOW}', ['succeeded'])]))
         if g['final'] > 1:
-            out.append(('newflow-late', [('run', 2), ('trigger', f'2/a', ['new'])]))
+            out.append(('newflow-late', [('run', 2), ('trigger', '2/a', ['new'])]))
         if kids:
             out.append(('setpre+newflow', [('setpre', kids[0], [first]), ('run', 2),
                                            ('trigger', first, ['new'])]))
@@ -765,6 +766,36 @@ def _unit(tier, bad, samples):
 
 
 # ----------------------------------------------------------------------------------------------------------
+# classifiers for the two disagreements found when this module was written (see the final report)
+def _witness_flows(witness):
+    before = witness.get('removed_task_before') or {}
+    pool = set((before.get('pool') or {}).get('flows', []))
+    db = set()
+    for row in before.get('task_states') or []:
+        db.update(row[0])
+    return set(witness.get('flow', [])), pool, db
+
+
+def kf_pooled_in_other_flow_blocks_removal(witness, res):
+    """known finding: `cylc remove T --flow=n` does nothing at all (history of T in flow n kept, children not
+    stood down) when T finished in flow n and a newer instance of T is in the pool in other flows only:
+    _remove_matched_tasks `continue`s past the database and downstream handling"""
+    sel, pool, db = _witness_flows(witness)
+    return bool(sel) and bool(pool) and not (pool & sel) and bool(db & sel)
+
+
+def kf_flow_never_in_unsets_child(witness, res):
+    """known finding: `cylc remove T --flow=n` where T never was in flow n still unsets the prerequisite
+    entries on T of a child that is (also) in flow n, and logs T as removed from flow n"""
+    sel, pool, db = _witness_flows(witness)
+    # (the child whose entry is unset must itself be in a selected flow: a child in other flows only is NOT
+    # this finding - the code skips it - and stays a violation)
+    return bool(sel) and not ((pool | db) & sel) and all(
+        p.get('what') in ('prereqs entries', 'suicide entries', 'nothing was removed but the pool changed')
+        and (p.get('clause') != 3 or bool(set(p.get('task_flows') or []) & sel))
+        for p in witness.get('problems', []))
+
+
 def check(tier='quick', seed=0):
     import asyncio
     import threading
